@@ -55,6 +55,11 @@ type WaitCase struct {
 	// counts as an attempt, the next one is due one timeout later. The request
 	// after which the neighbour answers is never refused.
 	Refuse []int `json:"refuse,omitempty"`
+	// NAFlags (IPv6): flags of the neighbour advertisement that answers: 0
+	// solicited|override, 1 solicited only (proxy / anycast advertisers, RFC 4861
+	// 7.2.4), 2 router|solicited|override, 3 router|solicited. An entry under
+	// resolution takes the link address from any of them (RFC 4861 7.2.5).
+	NAFlags int `json:"na_flags,omitempty"`
 }
 
 type waitResult struct {
@@ -93,6 +98,10 @@ func runWaitOnce(c WaitCase) (fail *evid.Failure, missed bool) {
 	}
 	e := newEnv(envCfg{V6: c.V6, NOwn: 1, Scaled: !c.Real, Age: time.Hour, Timeout: timeout, Attempts: attempts, Gateway: c.Gateway})
 	defer e.close()
+	e.naFlags = []byte{0x60, 0x40, 0xe0, 0xc0}[((c.NAFlags%4)+4)%4]
+	if c.V6 && c.NAFlags%4 != 0 {
+		evid.Label(fmt.Sprintf("wait:na-flags-%#x", e.naFlags))
+	}
 	if len(c.Refuse) > 0 {
 		var rmu sync.Mutex
 		nreq := 0
@@ -454,6 +463,7 @@ func genWait(rt *rapid.T) WaitCase {
 		}
 		c.Waiters = append(c.Waiters, w)
 	}
+	c.NAFlags = rapid.SampledFrom([]int{0, 0, 1, 1, 2, 3}).Draw(rt, "na_flags")
 	if rapid.IntRange(0, 2).Draw(rt, "refuse") == 0 {
 		for k := 1; k <= c.Attempts; k++ {
 			if k != c.AnswerAfter && rapid.Bool().Draw(rt, "refuse_k") {
